@@ -221,6 +221,21 @@ def run(chk):
     rb = P.call(FILE, "bench_to_circuit", "INPUT(a)\nOUTPUT(o)\no = AND(a, a2)\na2 = DFF(o)\nx = NOT(", "bad")
     rg = P.call(FILE, "bench_to_circuit", "INPUT(a)\nINPUT(b)\nOUTPUT(o)\no = NOR(a, b)\n", "good")
     ok = rg[0] == "return" and rg[1].inputs() == {"a", "b"} and rg[1].outputs() == {"o"} and set(rg[1].nodes()) == {"a", "b", "o"} and not rg[1].blackboxes
+    # the same text read twice gives two independent circuits: editing the first does not show in the second
+    txt = "INPUT(a)\nINPUT(b)\nOUTPUT(o)\nn1 = NAND(a, b)\no = NOT(n1)\n"
+    r1 = P.call(FILE, "bench_to_circuit", txt, "twice")
+    prob2 = None
+    if r1[0] != "return":
+        prob2 = {"problem": "reader rejects the text", "result": str(r1)[:100]}
+    else:
+        want = r1[1]._snapshot()
+        r1[1].set_output("n1", True)
+        r1[1].set_type("o", "buf")
+        r1[1].remove("a")
+        r2 = P.call(FILE, "bench_to_circuit", txt, "twice")
+        if r2[0] != "return" or r2[1] is r1[1] or r2[1]._snapshot() != want:
+            prob2 = {"problem": "the second read of the same text is not a fresh, unedited circuit", "same_object": r2[0] == "return" and r2[1] is r1[1], "nodes": sorted(r2[1].nodes()) if r2[0] == "return" else str(r2)[:80]}
+    chk.ob("C15.H.no-state-between-reads", "bench_to_circuit::same text read twice, first result edited", prob2 is None, file=FILE, func="bench_to_circuit", fact=prob2 or {}, expect="a fresh circuit denoting the text")
     chk.ob("C15.H.no-state-between-reads", "bench_to_circuit::second read after another text", ok, file=FILE, func="bench_to_circuit", fact={"nodes": sorted(rg[1].nodes()) if rg[0] == "return" else str(rg)[:100]}, expect="only the nets of the second text")
     bb = RefBlackBox("ff", ["d"], ["q"])
     cbb = build({"a": ("input", []), "u.d": ("bb_input", ["a"]), "u.q": ("bb_output", []), "w": ("buf", ["u.q"])}, outputs=["w"], blackboxes={"u": bb})
